@@ -13,7 +13,7 @@ PROP = dict(
     mismatch_is_violation=False,
     rule="typed program generator (harness/src/progen.rs), tiers F0 (ints, bools, locals, operators, short-circuit, "
          "if/else, blocks+shadowing, let/var, assignment forms, while/break/continue, println), F1 (+tuples, structs, "
-         "enums, match, arrays with aliasing, for, strings incl. all six comparison operators on designed pairs), F2 (+functions, recursion, return, option/result, ?/!), "
+         "enums, match, arrays with aliasing, for, strings incl. all six comparison operators on designed pairs), F2 (+functions incl. void-typed parameters in any position, recursion, return, option/result, ?/!), "
          "F3 (+lambdas, nested lambdas, captures, reassignment before/after creation); quick: 110+90+90+90 programs "
          "(4-12 statements, node budget 40-88), thorough: 4x2500 (budget up to 200); each compiled and run by the real "
          "compiler+VM under step budgets {1000},{1},{2,3,7},{100}; output + final value (Runtime::top for int/bool/"
